@@ -28,8 +28,8 @@ ASSUMPTIONS = [
 ]
 ANCHOR_FILES = ["gpytorch/models/", "gpytorch/module.py", "gpytorch/utils/memoize.py", "gpytorch/variational/", "gpytorch/kernels/grid_interpolation_kernel.py", "gpytorch/kernels/inducing_point_kernel.py", "gpytorch/kernels/grid_kernel.py"]
 
-QUICK_FAMS = ["default", "default_iterative", "batch_nan", "mt_kronecker", "ski", "ski_dynamic_grid", "sgpr", "batch", "svgp_whitened", "svgp_unwhitened", "lmc_multitask"]
-ALL_FAMS = ["default", "default_iterative", "batch", "batch_nan", "mt_kronecker", "ski", "ski_dynamic_grid", "sgpr", "svgp_whitened", "svgp_unwhitened", "svgp_meanfield", "svgp_batch_decoupled", "lmc_multitask"]
+QUICK_FAMS = ["default", "default_iterative", "batch_nan", "mt_kronecker", "hadamard_two_inputs", "ski", "ski_dynamic_grid", "sgpr", "batch", "svgp_whitened", "svgp_unwhitened", "lmc_multitask"]
+ALL_FAMS = ["default", "default_iterative", "batch", "batch_nan", "mt_kronecker", "hadamard_two_inputs", "ski", "ski_dynamic_grid", "sgpr", "svgp_whitened", "svgp_unwhitened", "svgp_meanfield", "svgp_batch_decoupled", "lmc_multitask"]
 STATE_CHANGING = {"train_step", "train_step_frozen", "train_step_jitter", "train_step_via_mll", "load_sd_partial", "set_data", "set_targets", "set_targets_strict", "load_sd"}
 EXACT_ALPHA = ["pred", "pred_fpv", "pred_nodetach", "pred_skipvar", "pred_eager", "pred_batch", "train_step", "set_data", "set_targets", "set_targets_strict", "load_sd", "load_sd_same", "fantasy", "prior", "backward", "train_eval"]
 VAR_ALPHA = ["pred", "pred_batch", "pred_skipvar", "pred_eager", "train_step", "load_sd", "load_sd_same", "prior", "backward", "train_eval"]
